@@ -380,7 +380,7 @@ def subscript_value(interp, o, idx, st):
         k = to_x(i).as_int() if to_x(i) is not None else None
         if k is None: return Opaque("symbolic index into tuple")
         try: return o[k]
-        except IndexError: return Opaque("tuple index out of range")
+        except IndexError: return Mismatch(f"IndexError: index {k} into a sequence of {len(o)} elements")
     if isinstance(o, ListVal):
         i = idx[0]
         if isinstance(i, tuple) and i and i[0] == "slice":
@@ -404,7 +404,7 @@ def subscript_value(interp, o, idx, st):
         k = xi.as_int()
         if k is not None and not o.per_iter:
             try: return o.items[k]
-            except IndexError: return Opaque("list index out of range")
+            except IndexError: return Mismatch(f"IndexError: index {k} into a list of {len(o.items)} elements")
         if o.per_iter and not o.items and len(o.per_iter) == 1 and isinstance(o.per_iter[0], tuple):
             var, count, val = o.per_iter[0][:3]
             ov = getattr(o, "overrides", None)
@@ -416,6 +416,9 @@ def subscript_value(interp, o, idx, st):
     if isinstance(o, DictVal):
         k = dkey(idx[0] if len(idx) == 1 else tuple(idx))
         if k is not None and k in o.d: return o.d[k]
+        if isinstance(k, str) and not o.open and o.d and all(isinstance(k_, str) for k_ in o.d):
+            # a closed dictionary of named entries: a name that was never stored raises KeyError on this path
+            return Mismatch(f"KeyError: {k!r} is never stored in this dictionary (keys: {', '.join(sorted(o.d)[:12])}{'...' if len(o.d) > 12 else ''})")
         return Opaque(f"dict key {k!r}")
     if isinstance(o, Obj):
         h = getattr(o, "hook", None)
